@@ -56,6 +56,38 @@ def run_one(idx, entry, repo):
     finally:
         shutil.rmtree(scratch, ignore_errors=True)
 
+def run_seed(d, prop, repo):
+    """One seeded change of /verif/seeded (a patch written by an independent agent, confirmed on import)."""
+    import glob
+    m = json.load(open(os.path.join(d, "meta.json")))
+    kind = m.get("kind", "defect")
+    res = {"seed": m["seed"], "kind": kind, "summary": m.get("summary", "")[:160]}
+    scratch = tempfile.mkdtemp(prefix="selftest.")
+    try:
+        root = os.path.join(scratch, "repo")
+        os.makedirs(root)
+        shutil.copytree(repo, os.path.join(root, "v4"))
+        a = subprocess.run("git init -q . && git apply --whitespace=nowarn %s" % os.path.join(d, "patch.diff"), shell=True, cwd=root, env=ENV,
+                           stdout=subprocess.PIPE, stderr=subprocess.STDOUT)
+        if a.returncode != 0:
+            res["outcome"] = "skipped: the patch no longer applies to the current tree"
+            return res
+        v = subprocess.run([VCHECK, "-property", prop, "-repo", os.path.join(root, "v4"), "-evidence", os.path.join(scratch, "ev")],
+                           stdout=subprocess.PIPE, stderr=subprocess.STDOUT, text=True, env=ENV)
+        fired = sorted({l.split()[2] if l.split()[1].startswith(("v4/", "/")) else l.split()[1]
+                        for l in v.stdout.splitlines() if l.startswith(("VIOLATED", "UNDECIDED", "VACUOUS")) and len(l.split()) > 2})
+        res["fired"] = fired
+        if kind == "refactoring":
+            res["outcome"] = "ok: silent" if v.returncode == 0 else "FALSE ALARM: " + ", ".join(fired)
+        else:
+            res["outcome"] = "ok: reported" if v.returncode != 0 else "not reported by this property's check"
+        return res
+    except Exception as e:  # noqa
+        res["outcome"] = "error: %s" % e
+        return res
+    finally:
+        shutil.rmtree(scratch, ignore_errors=True)
+
 def main():
     prop = sys.argv[1] if len(sys.argv) > 1 else "all"
     repo = "/repo/v4"
@@ -77,7 +109,26 @@ def main():
                "false_alarms": sum(1 for r in results if r["outcome"].startswith("FALSE ALARM")),
                "skipped": sum(1 for r in results if r["outcome"].startswith("skipped")),
                "errors": sum(1 for r in results if r["outcome"].startswith("error"))}
-    print(json.dumps({"summary": summary, "results": results}, indent=1))
+    # the seeded changes of this property (independent agents; see DESIGN.md 0.5)
+    import glob
+    seeded_dir = os.path.join(os.path.dirname(HERE), "seeded")
+    seeds = []
+    for d in sorted(glob.glob(os.path.join(seeded_dir, "*", ""))):
+        try:
+            m = json.load(open(os.path.join(d, "meta.json")))
+        except Exception:
+            continue
+        if prop == "all" or m.get("property") == prop:
+            seeds.append((d, m.get("property")))
+    with ThreadPoolExecutor(max_workers=jobs) as ex:
+        seed_results = list(ex.map(lambda dp: run_seed(dp[0], dp[1], repo), seeds))
+    seed_summary = {"seeds": len(seed_results),
+                    "defects_reported": sum(1 for r in seed_results if r["kind"] != "refactoring" and r["outcome"] == "ok: reported"),
+                    "defects_not_reported": sum(1 for r in seed_results if r["kind"] != "refactoring" and r["outcome"].startswith("not reported")),
+                    "refactorings_silent": sum(1 for r in seed_results if r["kind"] == "refactoring" and r["outcome"] == "ok: silent"),
+                    "refactorings_alarmed": sum(1 for r in seed_results if r["kind"] == "refactoring" and r["outcome"].startswith("FALSE")),
+                    "skipped": sum(1 for r in seed_results if r["outcome"].startswith("skipped"))}
+    print(json.dumps({"summary": summary, "results": results, "seeded_summary": seed_summary, "seeded_results": seed_results}, indent=1))
 
 if __name__ == "__main__":
     main()
